@@ -17,10 +17,12 @@ from common import sexp, parse_sexp
 MODEL_FILES = ['MaltModel/Conv/Tmpl.lean', 'MaltModel/Conv/Functions.lean', 'MaltModel/Conv/Directives.lean',
                'MaltModel/Conv/CallTrees.lean', 'MaltModel/Conv/IfExp.lean', 'MaltModel/Conv/Logical.lean',
                'MaltModel/Conv/Variables.lean', 'MaltModel/Conv/NoNative.lean', 'MaltModel/Proofs/C04Traverse.lean',
-               'MaltModel/Proofs/C04Passes.lean', 'MaltModel/Proofs/C04Calls.lean', 'MaltModel/Drv/C04.lean']
+               'MaltModel/Proofs/C04Passes.lean', 'MaltModel/Proofs/C04Calls.lean', 'MaltModel/Proofs/C04Sound.lean',
+               'MaltModel/Proofs/C01Exprs.lean', 'MaltModel/Sem/Wrappers.lean', 'MaltModel/Drv/C04.lean']
 
 CLS_IFEXP = 'ifexp_nested_in_ifexp_branch'
 CLS_DIRECTIVE = 'call_in_loop_directive_argument'
+CLS_ANNOT = 'call_in_parameter_annotation'
 ALL_CFG_CONSTRUCTS = ('print', 'eq', 'noteq', 'chain', 'nested_ifexp', 'debugger')
 
 
@@ -111,7 +113,7 @@ def _task_inner(arg):
         options = cx.make_options(rec_, fs)
         eq_on = bool(options.uses(converter.Feature.EQUALITY_OPERATORS))
         bi_on = bool(options.uses(converter.Feature.BUILTIN_FUNCTIONS))
-        case = {'cfg': cx.cfg_key(rec_, fs), 'cfg_id': ci, 'dis': [], 'npass': {}, 'off': None, 'nested': None, 'dircalls': None,
+        case = {'cfg': cx.cfg_key(rec_, fs), 'cfg_id': ci, 'dis': [], 'npass': {}, 'off': None, 'nested': None, 'dircalls': None, 'anncalls': None,
                 'error': None, 'dyn': [], 'skip_seen': 0}
         tr = cx.trace(mod.f, options)
         case['skip_seen'] = cx._state['skip_seen']
@@ -139,6 +141,7 @@ def _task_inner(arg):
                 case['error'] = 'final tree not serialisable: %r' % (e,)
         if orig_sx is not None:
             lines.append('c04.nested-ifexp ' + orig_sx)
+            lines.append('c04.annotation-calls ' + orig_sx)
         if dir_rec is not None and isinstance(dir_rec.before, list) and dir_rec.before[:1] != ['SNAPSHOT-ERROR']:
             ann = [a for a in (dir_rec.before_annos or []) if a[1] == 'static']
             lines.append('c04.directive-calls %s %s' % (sexp(dir_rec.before), sexp(ann)))
@@ -154,6 +157,7 @@ def _task_inner(arg):
             case['off'] = parse_sexp(ans[k]); k += 1
         if orig_sx is not None:
             case['nested'] = int(ans[k]) if ans[k].isdigit() else None; k += 1
+            case['anncalls'] = int(ans[k]) if ans[k].isdigit() else None; k += 1
         if k < len(ans):
             case['dircalls'] = int(ans[k]) if ans[k].isdigit() else None
         case['final_source'] = tr.final_source if (case['off'] or case['dis']) else None
@@ -242,8 +246,12 @@ def _classify(case, res):
         else:
             return None
     if n_call:
-        if case['dircalls'] and n_call <= case['dircalls']:
-            classes.add(CLS_DIRECTIVE)
+        d, a = case['dircalls'] or 0, case.get('anncalls') or 0
+        if n_call <= d + a:
+            if d:
+                classes.add(CLS_DIRECTIVE)
+            if a:
+                classes.add(CLS_ANNOT)
         else:
             return None
     return classes
@@ -304,7 +312,7 @@ def check(run, only_corpus=None):
 
     dis_by_op, npass = {}, {}
     conv_errors = {}
-    off_cases, known_hits = [], {CLS_IFEXP: 0, CLS_DIRECTIVE: 0}
+    off_cases, known_hits = [], {CLS_IFEXP: 0, CLS_DIRECTIVE: 0, CLS_ANNOT: 0}
     checked_final = 0
     dyn_stats = {'runs': 0, 'comparable': 0, 'exact_all_kinds': 0, 'instr_diverged': 0, 'by_kind_ops': dict.fromkeys(dyn.KINDS, 0),
                  'by_kind_orig': dict.fromkeys(dyn.KINDS, 0)}
@@ -338,7 +346,7 @@ def check(run, only_corpus=None):
                 if case['off']:
                     classes = _classify(case, res)
                     what = 'native %s survive(s) in the generated code' % sorted(set(o[0] for o in case['off']))
-                    d2 = dict(desc, surviving=case['off'][:6], nested_ifexp=case['nested'], directive_calls=case['dircalls'],
+                    d2 = dict(desc, surviving=case['off'][:6], nested_ifexp=case['nested'], directive_calls=case['dircalls'], annotation_calls=case.get('anncalls'),
                               generated=(case.get('final_source') or '')[-1500:])
                     if classes is None:
                         run.fail(what, d2, None)
@@ -368,6 +376,8 @@ def check(run, only_corpus=None):
                             cls = CLS_IFEXP
                         if k == 'call' and c < o and case['dircalls']:
                             cls = CLS_DIRECTIVE
+                        if k == 'call' and c < o and case.get('anncalls'):
+                            cls = CLS_ANNOT
                         d3 = dict(desc, kind=k, executions=o, operator_invocations=c, input=dr['input'], decisions=dr['decisions'])
                         run.fail('dynamic count: %d executed `%s` construct(s) but %d operator invocation(s)' % (o, k, c), d3, cls)
                         if cls is None:
